@@ -21,6 +21,7 @@ import Proofs.RefactorLoop
 import Proofs.RefactorGraphRoFull
 import Proofs.RefactorGraphEmbed
 import Proofs.RefactorGraphFuel
+import Proofs.RefactorUnusedOuts
 
 namespace Props.C19
 open Martian.Refactor
@@ -659,5 +660,117 @@ example :
     ∧ ((deepGraphAt (graphFuel exDeep2) (graphFuel exDeep2) (exDeepTi2.removeInputs [("Q", "u")])
           (removeUnused true [] exDeep2)).find? (·.fqid == ["P", "Q"])).map (·.inputs)
       = some [("a", .lit "35")] := by decide
+
+/-! ### the outputs pass of the `-top-calls` loop: side conditions derived from `unusedOutputs`
+(bonus round) -/
+
+open Proofs.RefactorUnusedOuts in
+/-- **unused_outputs_analysis_sound_partial** — soundness of the reachability analysis behind
+`mro edit -top-calls … -remove-unused-outputs` (`unusedOutputs`: `populateChildPipelineOuts`
++ the frontier walk that strikes referenced outputs from the table).  When the walk
+terminates by exhausting the frontier (`unusedOutputsO … = some T`: explicit exhaustion,
+evaluated per instance by the driver), `T` is what the loop uses, and an output `o` of
+`x` that is still in `T` is referenced — as `CALL.o…` or through a whole-call reference
+`CALL` — by no binding, modifier, return or retain of any pipeline REACHABLE from the top
+pipelines.  PARTIAL: says nothing about pipelines the walk does not reach (the Go code
+does not look at them either: an unreachable pipeline that reads `x.o` is broken by the
+edit — hence the hypothesis `allReachB` of the pass theorem below). -/
+theorem unused_outputs_analysis_sound_partial (p0 p : Program) (tops : List String)
+    (T : List (String × List String)) (h : unusedOutputsO p0 p tops = some T) :
+    unusedOutputs p0 p tops = T ∧
+    ∀ x o, Has T x o → ∀ n, Reach p (topNames p tops) n → ∀ pipe, p.find? n = some pipe →
+      ∀ r ∈ pipeCallRefs p pipe, ¬ RefersTo p pipe x o r :=
+  unusedOutputsO_spec p0 p tops T h
+
+open Proofs.RefactorUnusedOuts in
+/-- **remove_unused_outputs_pass_graph_partial** — one outputs pass of the `-top-calls` loop
+(`removeUnusedOutputsPass`: remove the whole table of unused outputs simultaneously, then
+the pipeline inputs this leaves unbound with their cascade).  The graph after the pass,
+in the type table with the same parameters removed, is the graph before with exactly the
+removed keys dropped from the output structs of the pipelines concerned and the cascaded
+input keys dropped — nothing else changes.
+NO per-output reference condition is assumed: that no reachable pipeline refers to a
+removed output (`refCondRo`, `outputUnreferenced`), that the cascade's seeds are
+unreferenced after the removal and that every cascaded input is unreferenced when it is
+removed are DERIVED from `unusedOutputs`, `unboundInputs` and `leftoverInputs`.
+Hypotheses, all decidable and evaluated per instance by the driver (`gthm
+removeOutputsPass`): `StructOK` (what compile guarantees minus wildcards, KF1);
+`allReachB`: every pipeline is reachable from the top pipelines (otherwise the statement
+is FALSE: the analysis does not visit unreachable pipelines); the walk exhausted its
+frontier (`unusedOutputsO = some T`, `T` non-empty); `TableShapeOK` (distinct keys, keys
+are pipelines with distinct return names — not derived from `populate`); `TableStructOK`:
+the STRUCTURAL part of `RemOutOK` for each removal in turn (the pipeline exists once, the
+removed output is not its last output / return binding (KF4/KF5), it is not used as a
+type (KF2), existing callees, the top-level call's bindings do not refer to it) — it
+mentions no reference to the removed outputs inside the program's callables.
+PARTIAL: one pass, not composed with the calls passes into the whole loop; `p0` (the
+program whose compile-time callable tables `populate` reads) is arbitrary. -/
+theorem remove_unused_outputs_pass_graph_partial (p0 p : Program) (tops : List String)
+    (T : List (String × List String)) (ti : TypeInfo)
+    (hs : StructOK p = true) (hreach : allReachB p tops = true) (hT : unusedOutputsO p0 p tops = some T)
+    (hne : T.isEmpty = false) (hshape : TableShapeOK T p = true)
+    (hst : TableStructOK (tablePairs T) ti p = true) :
+    (removeUnusedOutputsPass p0 tops p).1 = removeInputs (outPassIns p T) (outSteps (tablePairs T) p)
+    ∧ deepGraph ((ti.removeOutputs (tablePairs T)).removeInputs (outPassIns p T)) (removeUnusedOutputsPass p0 tops p).1
+      = (outPassIns p T).foldl (fun g xq => g.map (remNodeIn xq.1 xq.2))
+          ((tablePairs T).foldl (fun g xo => g.map (remNodeOut xo.1 xo.2)) (deepGraph ti p)) :=
+  outputs_pass_graph p0 p tops T ti hs (allReach_of_B p tops hreach) hT hne hshape hst
+
+/-- every removed output of the pass satisfies the full hypothesis of the single-output
+theorems (`RemOutOK`, `outputUnreferenced`) once its structural part holds -/
+theorem unused_output_entry_ok_partial (p0 p : Program) (tops : List String) (T : List (String × List String))
+    (ti : TypeInfo) (hs : StructOK p = true) (hreach : allReachB p tops = true)
+    (h : unusedOutputsO p0 p tops = some T) (x o : String) (os : List String) (he : (x, os) ∈ T) (ho : o ∈ os)
+    (hst : RemOutStructOK x o ti p = true) :
+    RemOutOK x o ti p = true ∧ outputUnreferenced x o p = true :=
+  Proofs.RefactorUnusedOuts.unused_entry_ok p0 p tops T ti hs
+    (Proofs.RefactorUnusedOuts.allReach_of_B p tops hreach) h x o ⟨(x, os), he, rfl, ho⟩ hst
+
+/-! `exOut`: `P → Q → R → A`; `Q` has an output `y = self.u` that `P` does not use: the pass
+removes `Q.y`, which leaves `Q`'s input `u` unbound and cascades to `P`'s call of `Q`. -/
+def oR : Callable :=
+  ⟨true, "R", false, ["a"], [("r", false)], [],
+   [⟨"A", "A", "", [⟨"a", .ref ⟨.self, "a", []⟩⟩], []⟩],
+   [⟨"r", .ref ⟨.call, "A", ["pt"]⟩⟩], []⟩
+def oQ : Callable :=
+  ⟨true, "Q", false, ["a", "u"], [("r", false), ("y", false)], [],
+   [⟨"R", "R", "", [⟨"a", .ref ⟨.self, "a", []⟩⟩], []⟩],
+   [⟨"r", .ref ⟨.call, "R", ["r"]⟩⟩, ⟨"y", .ref ⟨.self, "u", []⟩⟩], []⟩
+def oP : Callable :=
+  ⟨true, "P", false, ["a"], [("w", false)], [],
+   [⟨"Q", "Q", "", [⟨"a", .ref ⟨.self, "a", []⟩⟩, ⟨"u", .ref ⟨.self, "a", []⟩⟩], []⟩,
+    ⟨"B", "B", "", [⟨"v", .ref ⟨.call, "Q", ["r", "b"]⟩⟩, ⟨"q", .ref ⟨.call, "Q", ["r"]⟩⟩], []⟩],
+   [⟨"w", .ref ⟨.call, "B", ["o"]⟩⟩], []⟩
+def exOut : Program := ⟨[dA, dB, oR, oQ, oP], some ⟨"P", "P", "", [⟨"a", .lit "35"⟩], []⟩⟩
+def exOutTi : TypeInfo :=
+  ⟨exDeepTi.structs,
+   [("A", [("a", tInt)]), ("B", [("v", tInt), ("q", tPT)]), ("R", [("a", tInt)]),
+    ("Q", [("a", tInt), ("u", tInt)]), ("P", [("a", tInt)])],
+   [("A", [("pt", tPT)]), ("B", [("o", tInt)]), ("R", [("r", tPT)]), ("Q", [("r", tPT), ("y", tInt)]),
+    ("P", [("w", tInt)])]⟩
+
+example :
+    StructOK exOut = true ∧ allReachB exOut ["P"] = true
+    ∧ unusedOutputsO exOut exOut ["P"] = some [("Q", ["y"])]
+    ∧ TableShapeOK [("Q", ["y"])] exOut = true
+    ∧ TableStructOK (tablePairs [("Q", ["y"])]) exOutTi exOut = true
+    ∧ outPassIns exOut [("Q", ["y"])] = [("Q", "u")]
+    ∧ (removeUnusedOutputsPass exOut ["P"] exOut).1 ≠ exOut
+    ∧ ((deepGraph exOutTi exOut).find? (·.fqid == ["P", "Q"])).map (fun n => n.inputs.map (·.1)) = some ["a", "u"]
+    ∧ ((deepGraph ((exOutTi.removeOutputs [("Q", "y")]).removeInputs [("Q", "u")])
+          (removeUnusedOutputsPass exOut ["P"] exOut).1).find? (·.fqid == ["P", "Q"])).map
+        (fun n => n.inputs.map (·.1)) = some ["a"] := by decide
+
+/-- the reachability hypothesis is needed: a pipeline `Z` that nothing calls reads `Q.y`;
+the analysis does not visit it and still reports `Q.y` as unused -/
+def oZ : Callable :=
+  ⟨true, "Z", false, ["a"], [("z", false)], [],
+   [⟨"Q", "Q", "", [⟨"a", .ref ⟨.self, "a", []⟩⟩, ⟨"u", .ref ⟨.self, "a", []⟩⟩], []⟩],
+   [⟨"z", .ref ⟨.call, "Q", ["y"]⟩⟩], []⟩
+def exOutZ : Program := { exOut with callables := exOut.callables ++ [oZ] }
+
+example : StructOK exOutZ = true ∧ allReachB exOutZ ["P"] = false
+    ∧ unusedOutputsO exOutZ exOutZ ["P"] = some [("Q", ["y"])]
+    ∧ outputUnreferenced "Q" "y" exOutZ = false := by decide
 
 end Props.C19
